@@ -58,12 +58,13 @@ def run(tier, seed, selftest=False, replay=None):
     else:
         if tier == "quick":
             plan = [lambda: gen_all(1, 1, False), lambda: gen_all(2, 2, False), lambda: gen_sim(4, 2, False, 60, seed), lambda: gen_sim(5, 3, False, 40, seed + 1),
-                    lambda: gen_sim(4, 2, True, 40, seed + 2), lambda: gen_sim(6, 2, True, 20, seed + 3)]
+                    lambda: gen_sim(4, 2, True, 30, seed + 2), lambda: gen_sim(5, 2, True, 25, seed + 3), lambda: gen_sim(3, 2, True, 25, seed + 5)]
             mplan = [lambda: mc(3, 2, False), lambda: mc(3, 2, True)]
         else:
             plan = [lambda: gen_all(1, 1, False), lambda: gen_all(2, 2, False), lambda: gen_all(2, 1, False), lambda: gen_sim(4, 2, False, 1500, seed),
                     lambda: gen_sim(5, 3, False, 800, seed + 1), lambda: gen_sim(7, 3, False, 400, seed + 4),
-                    lambda: gen_all(2, 2, True), lambda: gen_sim(4, 2, True, 600, seed + 2), lambda: gen_sim(6, 2, True, 300, seed + 3)]
+                    lambda: gen_all(2, 2, True), lambda: gen_sim(4, 2, True, 600, seed + 2), lambda: gen_sim(6, 2, True, 300, seed + 3),
+                    lambda: gen_sim(5, 2, True, 300, seed + 5), lambda: gen_sim(5, 3, True, 300, seed + 6), lambda: gen_sim(3, 2, True, 200, seed + 7)]
             mplan = [lambda: mc(4, 2, False), lambda: mc(4, 2, True), lambda: mc(3, 3, True)]
         res = parallel(lambda f: f(), plan + mplan)
         gens, mcs = res[:len(plan)], res[len(plan):]
